@@ -307,6 +307,7 @@ func cmdCheck(args []string) int {
 	var solverCPU, maxS float64
 	nClaimed, nDischarged := 0, 0
 	var undecided, knownLines, violLines []string
+	lostLocked := 0
 	var samples []any
 	violations := 0
 	unlockedReplays := 0
@@ -428,6 +429,7 @@ func cmdCheck(args []string) int {
 	sort.Strings(missing)
 	for _, m := range missing {
 		undecided = append(undecided, m+": in baseline lock but not generated (function renamed/removed or engine limit)")
+		lostLocked++
 	}
 	for _, r := range reps {
 		if r.Err != "" {
@@ -439,7 +441,14 @@ func cmdCheck(args []string) int {
 	// property's native harness, if there is one
 	var boundedNote string
 	harness := filepath.Join(*verif, "harness", prop+"_bounded_test.go")
-	if _, err := os.Stat(harness); err == nil && (len(undecided) > 0 || *tier == "thorough") {
+	// (only when something that used to be proved can no longer be decided, or an
+	// annotation lost its anchor - not for obligations that were never discharged)
+	for _, u := range undecided {
+		if strings.Contains(u, "annotation.unbound") || strings.Contains(u, "ENGINE-LIMIT") || strings.Contains(u, "engine") {
+			lostLocked++
+		}
+	}
+	if _, err := os.Stat(harness); err == nil && (lostLocked > 0 || *tier == "thorough") {
 		out, herr := runHarness(harness, *repo, prop)
 		switch {
 		case strings.Contains(out, "BOUNDED-REFUTATION"):
